@@ -15,6 +15,7 @@ MAP = [
     ("ECDSA verify rejects r or s outside", "C01", "verify accepted (r, s+N); s = 0 raised AttributeError"),
     ("RFC 6979 nonce reduces a digest equal to N", "C01", "digest z == N was not reduced, nonce differed from RFC 6979"),
     ("low-S normalisation compares with integer", "C01", "s in (N//2, 2**255] returned unflipped (float N / 2)"),
+    ("ECDSA verify compares x(R) reduced mod N", "C01", "valid signature with x(R) in [N, p) (r = x(R) - N) was rejected: x(R) compared unreduced"),
     ("doubling a point with y = 0", "C03", "2-torsion doubling raised / returned an off-curve point on small curves"),
     ("parse_sec rejects compressed keys whose prefix", "C03", "33-byte keys with prefix other than 02/03 parsed as 03"),
     ("Script.raw_serialize handles 75-byte pushes", "C04", "a 75-byte push raised 'too long a command'"),
